@@ -49,16 +49,18 @@ Definition runs_list (iterations : Z) (prod : list kw) : list run :=
   number_from 0 (flat_map (fun it => map (fun k => (it, k)) prod) (zseq iterations)).
 
 (* ---- the model class BM ---- *)
-Record params := { p_n : Z; p_stop : option Z; p_ic : bool; p_sc : bool; p_ar : bool; p_churn : bool; p_k : Z }.
+(* p_ic / p_sc: how many times the model collects at construction / inside every step; between two
+   collects made at the same model.steps it changes a model-level value and every agent *)
+Record params := { p_n : Z; p_stop : option Z; p_ic : nat; p_sc : nat; p_ar : bool; p_churn : bool; p_k : Z }.
 Definition kwget (k : kw) (name def : Z) : Z := match aget name k with Some v => v | None => def end.
 Definition params_of (k : kw) : params :=
   {| p_n := kwget k 0 2;
      p_stop := match aget 1 k with Some v => if v =? -1 then None else Some v | None => None end;
-     p_ic := negb (kwget k 2 0 =? 0); p_sc := negb (kwget k 3 1 =? 0); p_ar := negb (kwget k 4 1 =? 0);
+     p_ic := Z.to_nat (kwget k 2 0); p_sc := Z.to_nat (kwget k 3 1); p_ar := negb (kwget k 4 1 =? 0);
      p_churn := negb (kwget k 5 0 =? 0); p_k := kwget k 6 0 |}.
 
 Definition bm_cfg (p : params) : config :=
-  {| c_mreps := [(0, MRFun false FSteps); (1, MRMethod (FSum 0)); (2, MRAttr 1)];
+  {| c_mreps := [(0, MRFun false FSteps); (1, MRMethod (FSum 0)); (2, MRAttr 1); (3, MRAttr 2)];
      c_areps := if p_ar p then [(0, ARFun (AStepsAttr 0)); (1, ARAttr 0)] else [];
      c_treps := []; c_tables := [] |}.
 
@@ -70,19 +72,31 @@ Definition wstep (w : world) (o : op) : world := fst (world_step w o).
 Definition bm_collect (p : params) (m : bm) : bm :=
   {| b_w := b_w m; b_d := fst (collect (bm_cfg p) (b_w m) (b_d m)); b_running := b_running m |}.
 
-Definition bm_init (p : params) : bm :=
-  let w1 := wstep world_init (SetAttr 1 (p_k p)) in
-  let w2 := iter (Z.to_nat (p_n p)) (fun w => wstep w (Create 0 [(0, p_k p)])) w1 in
-  let m := {| b_w := w2; b_d := dc_init (bm_cfg p); b_running := true |} in
-  if p_ic p then bm_collect p m else m.
-
-Definition inc_vals (w : world) : world :=       (* self.agents.do("step") *)
+Definition inc_vals (w : world) : world :=       (* every agent: val += 1 *)
   with_agents w (map (fun a => {| a_id := a_id a; a_cls := a_cls a;
                                   a_attrs := aset 0 (attr0 a 0 + 1) (a_attrs a) |}) (w_agents w)).
 
+(* between two collects at the same model.steps: self.t += self.steps + 1; every agent's val += 1 *)
+Definition attr_t (w : world) : Z := match aget 2 (w_attrs w) with Some (MInt z) => z | _ => 0 end.
+Definition bm_mutate (m : bm) : bm :=
+  {| b_w := inc_vals (wstep (b_w m) (SetAttr 2 (attr_t (b_w m) + w_steps (b_w m) + 1)));
+     b_d := b_d m; b_running := b_running m |}.
+(* for j in range(c): (mutate if j > 0); collect *)
+Fixpoint bm_collects (p : params) (c : nat) (m : bm) : bm :=
+  match c with
+  | O => m
+  | S j => let m1 := bm_collects p j m in
+           bm_collect p (match j with O => m1 | S _ => bm_mutate m1 end)
+  end.
+
+Definition bm_init (p : params) : bm :=
+  let w0 := wstep (wstep world_init (SetAttr 1 (p_k p))) (SetAttr 2 0) in
+  let w2 := iter (Z.to_nat (p_n p)) (fun w => wstep w (Create 0 [(0, p_k p)])) w0 in
+  bm_collects p (p_ic p) {| b_w := w2; b_d := dc_init (bm_cfg p); b_running := true |}.
+
 Definition bm_step (p : params) (m : bm) : bm :=   (* model.step(): the wrapper increments steps first *)
   let w1 := wstep (b_w m) Step in
-  let w2 := inc_vals w1 in
+  let w2 := inc_vals w1 in                        (* self.agents.do("step") *)
   let w3 := if p_churn p && (w_steps w2 mod 2 =? 1) then wstep w2 (Create 0 [(0, p_k p)]) else w2 in
   let w4 := if p_churn p && (w_steps w3 mod 3 =? 0)
             then match w_agents w3 with a :: _ => wstep w3 (Remove (a_id a)) | [] => w3 end
@@ -91,8 +105,7 @@ Definition bm_step (p : params) (m : bm) : bm :=   (* model.step(): the wrapper 
            | Some s => if s <=? w_steps w4 then false else b_running m
            | None => b_running m
            end in
-  let m' := {| b_w := w4; b_d := b_d m; b_running := r |} in
-  if p_sc p then bm_collect p m' else m'.
+  bm_collects p (p_sc p) {| b_w := w4; b_d := b_d m; b_running := r |}.
 
 (* while model.running and model.steps < max_steps: model.step() *)
 Fixpoint run_loop (fuel : nat) (p : params) (max_steps : Z) (m : bm) : bm :=
